@@ -7,6 +7,7 @@ INDEX_TB = [
 PROPS = {
     "C33": {
         "harness": "vh-index",
+        "gen": ["index_fields"],
         "level_text": "Kernel-checked theorems, for every configuration, every add/re-add/remove/hide history and every require string, about an executable model of LuaModuleIndex (pattern templates and longest-first order, extract_module_path over several workspace roots, moduleMap rewrite, path-keyed node arena, file_module_map, fuzzy-name map, remove with pruning, find_module exact -> moduleMap -> fuzzy): find_module equals an independent spec resolver over the insertion-ordered set of live (file, module path); exact beats fuzzy with the stated deterministic choice among duplicates; results are live files that match; after remove a file is unresolvable. The model is compared with the real LuaModuleIndex (public API) on generated trees/histories/configs every run, and an independent Rust reference resolver is evaluated against the implementation as the oracle. Also proved: a single-? template selects exactly pre ++ m ++ suf, and ?/init.lua beats ?.lua. Go-to-definition on the require string and the inferred module type (semantic layer on top of find_module) are search-only: on real analysed workspaces parse_require_module_info and the inferred type of the required value are compared with the file the reference resolver selects, before and after removing a file.",
         "level_note": "Trusted: Lean kernel, harness/serialisers, the correspondence run as the tie. Modelled: set_module_extract_patterns, match_pattern, extract_module_path, replace_module_path (template fragment), add_module_by_path, add_module_by_module_path, LuaIndex::remove (after fix e70c5d1), set_module_visibility(Hide), find_module, find_module_node. Node ids are abstracted to node paths. Search-only: the semantic layer (parse_require_module_info / module type of `local x = require(...)`).",
         "trusted_base": INDEX_TB,
@@ -19,32 +20,36 @@ PROPS = {
 }
 
 LIFE_TB = INDEX_TB + [
-    "correspondence run index.db: a real DbIndex driven through its public add_* / remove / clear methods with generated file-tagged mutation histories vs the Index.Db model (entry counts of DbIndex::verif_report + lookups over the key universe after every step)",
+    "correspondence runs index.db and index.sym: a real DbIndex driven through its public add_* / remove / clear methods with generated (and, thorough tier, exhaustive <= 5 step) file-tagged mutation histories vs the Index.Db / Index.Sym models (entry counts of DbIndex::verif_report + lookups over the key universe after every step)",
+    "T-src extraction (checklib/gen/index_fields.py, regex over db_index/**/mod.rs) of struct fields, cleared fields and visited indexes",
     "the analyzers' cross-file inference (which mutations a file's analysis performs, given the other files) is a parameter of the theorems; its stability is judged only by the implementation-side oracle on the real EmmyLuaAnalysis",
 ]
 LIFE_ASSUME = [
-    "modelled at method granularity: LuaModuleIndex (all maps), per-file maps (dependency, diagnostic x4, decl/flow trees, per-file reference tables, namespaces), LuaGlobalIndex::global_decl, index_reference / global_references, LuaSignatureIndex, LuaPropertyIndex (description/source fields); NOT modelled: LuaTypeIndex, LuaMemberIndex, LuaOperatorIndex, LuaMetatableIndex, Vfs (covered by the oracle's entry counts and dump only)",
+    "modelled at method granularity and tied every run: LuaModuleIndex (all maps), per-file maps (dependency, diagnostic x4, decl/flow trees, per-file reference tables), LuaGlobalIndex::global_decl, index_reference / global_references, LuaSignatureIndex, LuaPropertyIndex (description/source fields) [Index.Db, index.db]; LuaTypeIndex (global type ids), LuaOperatorIndex, LuaMetatableIndex, LuaMemberIndex incl. add_member_to_owner / set_member_owner [Index.Sym, index.sym]; theorems cover module, per-file, keyed, nested, id-owned, metatable maps and clear of all; for type / operator / member remove only the tie and the oracle; NOT modelled: workspace-internal and file-local type ids, Vfs",
     "oracle workspaces are analysed without the std library; multi-location definitions are compared as sets",
 ]
 
 PROPS.update({
     "C10": {
         "harness": "vh-index",
-        "level_text": "Kernel-checked theorems for all histories of file-tagged mutations about executable models of LuaIndex::remove: module index (no node file list, ModuleInfo or fuzzy list mentions the removed file; all other entries unchanged), per-file maps and global_decl-shaped maps (remove_exact: the state after remove(f) has exactly the lookups, and for keyed maps the entry count, of the state built from the other files' mutations alone). Nested reference maps, signatures and the doc-property index are modelled and tied but remove_exact is not proved for them yet; for the property index the theorem is false on the current code (witness + partial, open finding). Type / member / operator indexes are search-only: the oracle removes and closes files of generated multi-file workspaces on the real EmmyLuaAnalysis and checks that no result mentions the file, that every per-file map has no entry for it, that add-then-remove of a probe file restores the full observable dump and does not grow any entry count of DbIndex::verif_report, and that removing everything empties every map.",
+        "gen": ["index_fields"],
+        "level_text": "Kernel-checked theorems for all histories of file-tagged mutations about executable models of LuaIndex::remove: module index (no node file list, ModuleInfo or fuzzy list mentions the removed file; all other entries unchanged), per-file maps and global_decl-shaped maps (remove_exact: the state after remove(f) has exactly the lookups, and for keyed maps the entry count, of the state built from the other files' mutations alone). Also proved: remove_exact for nested reference maps, signatures and the metatable map, the exact node arena and entry counts of the module index; for the doc-property index the theorem is false on the current code (witness + partial, open finding) and two member-index witnesses reproduce the open findings in the model. Type / operator / member indexes are modelled and tied (index.sym) but their remove theorems are not proved; beyond the tie they are covered by the oracle: the oracle removes and closes files of generated multi-file workspaces on the real EmmyLuaAnalysis and checks that no result mentions the file, that every per-file map has no entry for it, that add-then-remove of a probe file restores the full observable dump and does not grow any entry count of DbIndex::verif_report, and that removing everything empties every map.",
         "level_note": "Trusted: Lean kernel, harness, the two correspondence runs (index.mod, index.db) as the tie. Theorems cover the index data structures, not the analyzers that feed them. Open findings: symbol-declared-in-several-files, class-bound-to-required-table.",
         "trusted_base": LIFE_TB,
         "assumptions": LIFE_ASSUME,
     },
     "C08": {
         "harness": "vh-index",
-        "level_text": "Kernel-checked theorems for all histories about the same models as C10: update(f) = remove + contributions leaves exactly the state that the other files' mutations followed by f's contributions build (update_exact for per-file and global_decl-shaped maps), hence re-submission is the identity whenever f's contributions are already last (readd_identity: every second re-submission, edit+restore after a re-submission); module index: re-submission idempotent and edit+restore = one re-submission at the level of the live set, hence (C33) of every require resolution. The doc-property index violates the law on the current code (witness, open finding). Everything that depends on the analyzers (which contributions a file makes given the others) is search-only: the oracle re-submits unchanged files and edit/restore pairs from a batch analysis or a reindex of generated multi-file workspaces and compares the full observable dump (diagnostics, per-token type/definition/hover doc, modules, require resolution, globals, types with members) and requires that no entry count of DbIndex::verif_report grows.",
+        "gen": ["index_fields"],
+        "level_text": "Kernel-checked theorems for all histories about the same models as C10: update(f) = remove + contributions leaves exactly the state that the other files' mutations followed by f's contributions build (update_exact for per-file, global_decl-shaped, nested reference and id-owned maps), hence re-submission is the identity whenever f's contributions are already last (readd_identity: every second re-submission, edit+restore after a re-submission); module index: re-submission idempotent and edit+restore = one re-submission at the level of the live set, hence (C33) of every require resolution. The doc-property index violates the law on the current code (witness, open finding). Everything that depends on the analyzers (which contributions a file makes given the others) is search-only: the oracle re-submits unchanged files and edit/restore pairs from a batch analysis or a reindex of generated multi-file workspaces and compares the full observable dump (diagnostics, per-token type/definition/hover doc, modules, require resolution, globals, types with members) and requires that no entry count of DbIndex::verif_report grows.",
         "level_note": "Trusted: Lean kernel, harness, correspondence runs. A first re-submission moves a file's items to the end of shared vectors (proved exact law); the oracle treats multi-location definition lists as sets. Open findings: symbol-declared-in-several-files, class-bound-to-required-table.",
         "trusted_base": LIFE_TB,
         "assumptions": LIFE_ASSUME,
     },
     "C09": {
         "harness": "vh-index",
-        "level_text": "In the models clear resets every modelled map field by field, so clear_is_new and reindex_eq_fresh are immediate kernel-checked facts (also: no stale keyed entry survives); what carries the property is the tie and the oracle: the correspondence runs execute the real LuaModuleIndex::clear / DbIndex::clear in the middle of generated histories and compare every entry count and lookup with the model afterwards, and the oracle runs histories of update / re-submit / remove / close / reindex on the real EmmyLuaAnalysis, reindexes, and compares the full observable dump and every entry count of DbIndex::verif_report (which destructures DbIndex and every index exhaustively, so a field added later breaks the hook build until it is counted) with a fresh analysis of the surviving files loaded in file-id order.",
+        "gen": ["index_fields"],
+        "level_text": "T-src bridge: the field list of DbIndex and of every index struct, the fields each LuaIndex::clear resets and the indexes DbIndex::clear / remove visit are extracted from the source on every run (Gen/IndexFields.lean); kernel-checked: every DbIndex field except vfs/emmyrc is cleared, every field of every index is reset by its clear except a listed set of configuration fields (and JsonSchemaIndex::schema_files, whose clear is a TODO in the source), and the models' clear empties a map iff the source resets its field, so clear_is_new / reindex_eq_fresh / no-stale-entry hold only while the source keeps clearing every modelled field. Beyond that the property is carried by the tie and the oracle: the correspondence runs execute the real LuaModuleIndex::clear / DbIndex::clear in the middle of generated histories and compare every entry count and lookup with the model afterwards, and the oracle runs histories of update / re-submit / remove / close / reindex on the real EmmyLuaAnalysis, reindexes, and compares the full observable dump and every entry count of DbIndex::verif_report (which destructures DbIndex and every index exhaustively, so a field added later breaks the hook build until it is counted) with a fresh analysis of the surviving files loaded in file-id order.",
         "level_note": "Trusted: Lean kernel, harness, correspondence runs, the verif_report hook. The theorems are thin by construction; a clear() that forgets a field is caught by the oracle's count comparison (e.g. the fixed LuaMemberIndex::member_current_owner) and, for modelled maps, by the tie. The Vfs path<->id maps keep closed files and are excluded from the count comparison.",
         "trusted_base": LIFE_TB,
         "assumptions": LIFE_ASSUME,
